@@ -119,7 +119,9 @@ def srcOfJson (j : Json) : Except String ClassSrc := do
   pure { name := ← (← j.getObjVal? "name").getStr?, bases := ← strList j "bases", entries, required,
          optional := ← strList j "optional", addl := ← optBoolN j "addl",
          ignoreNone := ← optBoolN j "ignoreNone", immutable := ← optBoolN j "immutable",
-         keysOf := ← strList j "keysOf" }
+         keysOf := ← match optField j "keysOf" with
+           | none => pure []
+           | some x => do (← x.getArr?).toList.mapM fun e => do (← e.getArr?).toList.mapM (·.getStr?) }
 
 def opOfJson (j : Json) : Except String DeriveOp := do
   match ← (← j.getObjVal? "kind").getStr? with
